@@ -35,6 +35,7 @@ type State struct {
 	brk   *Term
 	ghost *ghostNode
 	gepoch int
+	kepoch *ghostNode // per-kind epochs (name = kind, val = const epoch)
 }
 
 func (st State) assume(t *Term) State {
@@ -328,6 +329,9 @@ type Exec struct {
 	stack      []*ssa.Function
 	forceInline bool
 	noCut      bool
+	freshGhost map[uint32]bool
+	ghostBounded map[*Term]bool
+	recovering int
 	gepochs    int
 	rootEntrySt State
 	escaped    map[*Term]bool
@@ -347,7 +351,7 @@ type Exec struct {
 func newExec(P *Program) *Exec {
 	e := &Exec{P: P, c: NewCtx(), regions: map[*Term]*Region{}, globals: map[*ssa.Global]*Term{},
 		strs: map[string]Val{}, inlined: map[string]bool{}, viaCt: map[string]bool{},
-		assumed: map[string]bool{}, lineHash: map[string]int{}, closures: map[*Term]*closure{}, constGlobals: map[*Term]bool{}, fpBits: map[*Term]*Term{}, fpOf: map[*Term]*Term{}, times: map[*Term]civil{}, escaped: map[*Term]bool{}}
+		assumed: map[string]bool{}, lineHash: map[string]int{}, closures: map[*Term]*closure{}, constGlobals: map[*Term]bool{}, fpBits: map[*Term]*Term{}, fpOf: map[*Term]*Term{}, times: map[*Term]civil{}, escaped: map[*Term]bool{}, ghostBounded: map[*Term]bool{}, freshGhost: map[uint32]bool{}}
 	e.cfg = ExecConfig{unroll: 40, inlineDepth: 8, maxPaths: 20000}
 	e.maxSteps = 3000000
 	for i, w := range heapWidths {
@@ -517,6 +521,10 @@ func typeContains(T, E types.Type) bool {
 // typeDisjoint: a pointer/slice of element type E that came from unknown memory cannot
 // point into a local variable whose type does not contain an E (Go allocations are typed).
 func (e *Exec) typeDisjoint(st State, base, nslots *Term, E types.Type, belowEntry bool) State {
+	return e.typeDisjointIf(st, e.c.True, base, nslots, E, belowEntry)
+}
+
+func (e *Exec) typeDisjointIf(st State, cond, base, nslots *Term, E types.Type, belowEntry bool) State {
 	c := e.c
 	for _, r := range e.locals {
 		if r.T == nil || typeContains(r.T, E) {
@@ -525,7 +533,7 @@ func (e *Exec) typeDisjoint(st State, base, nslots *Term, E types.Type, belowEnt
 		if belowEntry && r.fresh {
 			continue // already separated by the allocation frontier
 		}
-		st = st.assume(c.Or(c.Ule(c.Add(base, nslots), r.base), c.Ule(c.Add(r.base, c.Const(64, r.n)), base)))
+		st = st.assume(c.Imp(cond, c.Or(c.Ule(c.Add(base, nslots), r.base), c.Ule(c.Add(r.base, c.Const(64, r.n)), base))))
 	}
 	return st
 }
@@ -639,6 +647,10 @@ func (e *Exec) assumeValid(st State, T types.Type, v Val, input bool) State {
 			}
 			alts = append(alts, c.And(c.Eq(v[0], c.Const(64, e.P.tag(I))),
 				c.Ule(c.Const(64, 1), v[1]), c.Ule(v[1], lim), c.Ule(c.Add(v[1], c.Const(64, n)), lim)))
+			if p, ok := I.Underlying().(*types.Pointer); ok {
+				// under this dynamic type the payload is a *T: it cannot point into objects without a T
+				st = e.typeDisjointIf(st, c.Eq(v[0], c.Const(64, e.P.tag(I))), v[1], c.Const(64, n), p.Elem(), lim == e.brk0)
+			}
 		}
 		st = st.assume(c.Or(alts...))
 	case *types.Struct:
